@@ -36,7 +36,7 @@ func (n *c20namer) d(v ssa.Value) string {
 	case *ssa.UnOp:
 		if x.Op == token.MUL {
 			if fv, ok := x.X.(*ssa.FreeVar); ok {
-				return fv.Name()
+				return n.role(fv)
 			}
 			if ia, ok := x.X.(*ssa.IndexAddr); ok {
 				if n.isInduction(ia.Index) {
@@ -56,10 +56,50 @@ func (n *c20namer) paramOfCallee(c *ssa.Call) string {
 	}
 	if u, ok := c.Call.Value.(*ssa.UnOp); ok && u.Op == token.MUL {
 		if fv, ok := u.X.(*ssa.FreeVar); ok {
-			return fv.Name()
+			return n.role(fv)
 		}
 	}
 	return ""
+}
+
+// c20roles: the constructors' parameters by position (0 = receiver). The rules speak of these roles; what the
+// parameters are called in the source does not matter.
+var c20roles = map[string][]string{
+	"WithValueNotEmptyCheck":       {"c", "valueName", "value", "errorFunc"},
+	"WithValuesNotEmptyCheck":      {"c", "values", "errorFunc"},
+	"WithValueLengthCheck":         {"c", "valueName", "value", "minlength", "maxlength", "errorFunc"},
+	"WithValueEqualsCheck":         {"c", "valueName", "value", "equal", "errorFunc"},
+	"WithConditionalValueNotEmpty": {"c", "cond", "valueName", "value", "errorFunc"},
+	"WithConditionalLogicStep":     {"c", "cond", "logic", "errorFunc"},
+	"WithLogicStep":                {"c", "logic", "errorFunc"},
+	"WithValueStep":                {"c", "logic"},
+}
+
+// role: the positional role of the constructor parameter a free variable of the step closure captures.
+func (n *c20namer) role(fv *ssa.FreeVar) string {
+	cons := n.fn.Parent()
+	if cons == nil {
+		return fv.Name()
+	}
+	roles := c20roles[cons.Name()]
+	var p *ssa.Parameter
+	switch b := n.fx.bindings[fv].(type) {
+	case *ssa.Parameter:
+		p = b
+	case *ssa.Alloc:
+		if st := n.fx.storesToCell(b); len(st) == 1 {
+			p, _ = st[0].(*ssa.Parameter)
+		}
+	}
+	if p == nil {
+		return fv.Name()
+	}
+	for i, q := range cons.Params {
+		if q == p && i < len(roles) {
+			return roles[i]
+		}
+	}
+	return fv.Name()
 }
 
 // isInduction: v is the index of a front-to-back range loop: phi(-1, v)+1, or phi(0, phi+1).
@@ -725,8 +765,8 @@ func checkC20Loop(cx *Ctx, r *Report, cf *ssa.Function) {
 }
 
 func hasCondParam(cons *ssa.Function) bool {
-	for _, p := range cons.Params {
-		if p.Name() == "cond" {
+	for _, r := range c20roles[cons.Name()] {
+		if r == "cond" {
 			return true
 		}
 	}
